@@ -4,7 +4,7 @@ from .. import env, coq, runner
 
 LEVEL = 'proof'
 META = dict(
-    text='Coq theorems over a hand-written Gallina model of Circuit/Moment in the shape of circuit.py (operations as records of uid, qubits, measurement keys, control keys, parameter names; moments as lists; the placement cache and the five lazy summaries as explicit state; 37 public call forms): for every finite history the moments keep pairwise-disjoint qubits, the placement cache, whenever present, equals the summary recomputed from the moments, every lazily cached summary that is marked valid equals its recomputation, and no insert/append raises; insert with any strategy/index/operation tree loses or duplicates nothing and keeps the existing operations in order; for one operation (every strategy) and for append/constructor with any tree each operation lands behind every conflicting one and never across one; the cached append builds exactly the moments of the uncached insert at the end; batch_* edits are atomic; closed forms for NEW/INLINE placement and specifications of the two scans. The model is evaluated by vm_compute on the same random edit histories the implementation ran (moments as uid lists, return values, exception classes, queries compared after every call), and spec-level oracles (disjointness, multiset, documented exceptions, atomicity, the order clauses of the property text, placement per strategy, queries of a freshly rebuilt circuit) run on the real code.',
+    text='Coq theorems over a hand-written Gallina model of Circuit/Moment in the shape of circuit.py (operations as records of uid, qubits, measurement keys, control keys, parameter names; moments as lists; the placement cache and the five lazy summaries as explicit state; 37 public call forms): for every finite history the moments keep pairwise-disjoint qubits, the placement cache, whenever present, equals the summary recomputed from the moments, every lazily cached summary that is marked valid equals its recomputation, and no insert/append raises; insert with any strategy/index/operation tree loses or duplicates nothing and keeps the existing operations in order; for one operation (every strategy) and for append/constructor with any tree each operation lands behind every conflicting one and never across one; the cached append builds exactly the moments of the uncached insert at the end, and after any history insert/append (every strategy, index, tree) build the moments the same call builds on a freshly rebuilt equal circuit; batch_* edits are atomic; closed forms for NEW/INLINE placement and specifications of the two scans. The model is evaluated by vm_compute on the same edit histories the implementation ran (random histories, plus a fixed grid: a circuit whose append-placement cache is alive, one edit of every kind aimed at / behind the last operation on each qubit and key, then appends onto every qubit and key; moments as uid lists, return values, exception classes, queries compared after every call), and spec-level oracles (disjointness, multiset, documented exceptions, atomicity, the order clauses of the property text, placement per strategy for one operation and for whole trees at the end, every edit and every query compared with a freshly rebuilt equal circuit) run on the real code.',
     note='Trusted: Coq kernel; the Python adapters in vf/checks/c05.py (op vocabulary carrying uids, calling Cirq, printing Gallina literals, the spec-level oracles = the reading of the property text). The quantifier over histories is proved for the model and only sampled for the model-implementation correspondence. Proved for the model but only compared on samples for multi-operation mid-circuit inserts: the order clauses; for zip/concat_ragged/insert_at_frontier/batch_replace: conservation of operations. _load_contents_with_earliest_strategy is modelled as sequential cached placement. Not covered: diagrams/__str__, JSON, extended slices (step != 1), deprecated helpers. known_findings/C05.json: two defects found by this check were repaired (with_tags kept a stale placement cache; batch_insert mis-shifted later indices) and are guarded by the positive theorems and the oracles; open: concat_ragged and insert_at_frontier ignore key conflicts (kept as refuted theorems whose witnesses are replayed on every run), and two residual batch_insert edge cases (negative indices; shift after a multi-operation group that spills past the next index).',
     technique='Rocq/Coq proof (induction over call lists, invariants of the insertion loops) over an executable Gallina model + vm_compute correspondence on random edit histories + spec-level oracles on the implementation',
 )
@@ -606,6 +606,11 @@ class Gen:
         if r < 0.73:        # delete / slice-assign / clear
             k = rng.choice(['clear', 'setitem', 'setslice', 'delitem', 'delslice', 'imul'])
             if k == 'clear':
+                e = self.existing()
+                if e and rng.random() < 0.6:      # aimed: really removes an operation that is there
+                    qs = self.w.spec(e[1])['q']
+                    return dict(c='clear', q=(rng.sample(qs, 1) if qs else []) + self.qubits(0, 1),
+                                idx=[e[0]] + [self.index(1) for _ in range(rng.randint(0, 2))])
                 return dict(c='clear', q=self.qubits(0, 3), idx=[self.index(1) for _ in range(rng.randint(0, 3))])
             if k == 'setitem':
                 return dict(c='setitem', i=self.index(1), m=self.new_moment_uids())
@@ -938,13 +943,57 @@ def oracle_order(w, call, before, after, res):
     return None
 
 
+def place_tree_at_end(w, moms, items, s):
+    """The documented meaning of adding a whole tree at the end of a circuit (append, insert at / past the end, the
+    constructor): the items are taken in order; a Moment is appended intact; under EARLIEST an operation scans backward
+    from the end and joins the moment just after the last one holding a conflicting operation (shared qubit, shared
+    measurement key, measurement key against control key), a new last moment if that is the end; under NEW every
+    operation gets a moment of its own."""
+    moms = [list(m) for m in moms]
+    for it in items:
+        if isinstance(it, dict):
+            moms.append(list(it['m']))
+        elif s == 'NEW':
+            moms.append([it])
+        else:
+            p = max([i for i, m in enumerate(moms) if any(conflict(w, x, it) for x in m)], default=-1) + 1
+            if p == len(moms):
+                moms.append([it])
+            else:
+                moms[p].append(it)
+    return moms
+
+
+def oracle_placement_tree(w, call, before, after, res):
+    """Where the operations of a whole tree (several items, or the constructor's tree) land: EARLIEST and NEW at the end of
+    the circuit, NEW anywhere, and a tree made of Moments only under every strategy."""
+    k, s, items, n = call['c'], call['s'], call['items'], len(before)
+    kk = clamp(call['i'], n) if k == 'insert' else n
+    only_moments = all(isinstance(it, dict) for it in items)
+    if s == 'NEW' or (only_moments and s != 'LATEST'):
+        exp = before[:kk] + [list(it['m']) if isinstance(it, dict) else [it] for it in items] + before[kk:]
+        ret = kk + len(items) if items else None      # the index returned for an empty tree is not documented
+    elif s == 'EARLIEST' and kk == n:
+        exp, ret = place_tree_at_end(w, before, items, s), None
+    else:
+        return None
+    got_ret = res[1] if k == 'insert' else None
+    if after != exp or (k == 'insert' and ret is not None and got_ret != ret):
+        return (f'{s} {k} of the tree {items} at {kk} into {before}: the strategy puts the operations at {exp}'
+                + (f' returning {ret}' if k == 'insert' and ret is not None else '') + f', got {after}'
+                + (f' returning {got_ret}' if k == 'insert' else ''))
+    return None
+
+
 def oracle_placement(w, call, before, after, res):
     """Where a single operation / a single Moment lands, per documented strategy, and the returned index."""
     k = call['c']
-    if k not in ('insert', 'append') or len(call['items']) != 1 or res[0] == 'err':
+    if k not in ('insert', 'append', 'new') or res[0] == 'err':
         return None
-    it = call['items'][0]
     n = len(before)
+    if k == 'new' or len(call['items']) != 1:
+        return oracle_placement_tree(w, call, [] if k == 'new' else before, after, res)
+    it = call['items'][0]
     kk = clamp(call['i'], n) if k == 'insert' else n
     s = call['s']
     ret = res[1] if k == 'insert' else None
@@ -953,6 +1002,8 @@ def oracle_placement(w, call, before, after, res):
         for m2, r2 in ((moms, r),) + alts:
             if after == m2 and (ret is None or ret == r2):
                 return None
+        if k == 'append':
+            return (f'{s} append of {it} onto {before}: expected {moms}' + (f' (or {alts[0][0]})' if alts else '') + f', got {after}')
         return (f'{s} insert of {it} at {kk} into {before}: expected {moms} returning {r}'
                 + (f' (or {alts[0][0]} returning {alts[0][1]})' if alts else '') + f', got {after} returning {ret}')
     newm = lambda u: before[:kk] + [[u]] + before[kk:]
@@ -992,6 +1043,15 @@ def rebuilt(w):
     """A freshly built circuit with equal moments (new Moment objects, no cached state)."""
     cirq = w.cirq
     return cirq.Circuit([cirq.Moment(list(m.operations)) for m in w.c.moments], tags=w.c.tags)
+
+
+def shadow_world(w):
+    """The same operation table and a freshly rebuilt equal circuit: what an edit is compared against."""
+    s = World.__new__(World)
+    s.cirq, s.v = w.cirq, w.v
+    s.ops, s.ops0, s.objs = dict(w.ops), dict(w.ops0), dict(w.objs)
+    s.c = rebuilt(w)
+    return s
 
 
 def oracle_queries(w, rng, heavy=False):
@@ -1068,6 +1128,12 @@ def run_history(w, calls, rng=None, gen=None, n_calls=0):
         spec = Spec(w, call, before)
         want = spec.expected_error()
         rendered.append(coq_call(w, call))
+        shadow = None
+        if call['c'] not in QUERIES and call['c'] not in ('empty', 'new'):
+            try:
+                shadow = shadow_world(w)
+            except ValueError:      # the moments are not well formed (the wf oracle has reported it)
+                shadow = None
         res = exec_call(w, call)
         moms = w.moments_uids()
         out_calls.append(call)
@@ -1099,6 +1165,19 @@ def run_history(w, calls, rng=None, gen=None, n_calls=0):
         p = oracle_placement(w, call, before, moms, res)
         if p:
             add('placement', p)
+        if shadow is not None:
+            # the edit itself must not depend on what the circuit remembers of its past: the same call on a freshly
+            # rebuilt equal circuit gives the same result and the same moments
+            res2 = exec_call(shadow, call)
+            moms2 = shadow.moments_uids()
+            if call['c'] == 'insert' and res[0] == res2[0] == 'int':
+                # a returned insertion index denotes a position of the resulting circuit: indices past the end are the end
+                res_c, res2_c = ('int', clamp(res[1], len(moms))), ('int', clamp(res2[1], len(moms2)))
+            else:
+                res_c, res2_c = res, res2
+            if (res2_c, moms2) != (res_c, moms):
+                add('rebuilt', f'{call["c"]} on the circuit {before} gives {res} and moments {moms}; the same call on a freshly '
+                               f'rebuilt equal circuit gives {res2} and moments {moms2}')
         if call['c'] in QUERIES or call['c'] not in BASIC:
             for p in oracle_queries(w, random.Random(step * 7919 + 13)):      # deterministic per step: shrinking stays reproducible
                 add('query', p)
@@ -1130,7 +1209,9 @@ def run(ctx):
     ctx.rule = ('random edit histories of 1-40 public calls starting from Circuit(); operations on 5 qubits and 3 keys '
                 '(plain, parameterized, measurement, classically controlled, multi-key, zero-qubit), whole Moments, empty moments, '
                 'all five strategies, indices negative/past the end, batch/range/frontier edits, slice assignment, deletion, clearing, '
-                '+, *, **-1, zip, concat_ragged, transform_qubits, freeze/unfreeze, with_tags, queries interleaved; after every call the '
+                '+, *, **-1, zip, concat_ragged, transform_qubits, freeze/unfreeze, with_tags, queries interleaved; plus the edit-then-append grid '
+                '(circuits built by Circuit(tree)/appends in three ways, one aimed edit of every kind on/behind the last operation of each qubit and key, '
+                'then single-operation and whole-tree appends onto all qubits and keys); after every call the '
                 'moments (uid lists), return value / exception class are compared with the Gallina model; non-trivial = >= 3 mutating '
                 'calls, >= 3 operations left and a moment with >= 2 operations; distinct by canonical history')
     ctx.assumptions += ['vf/checks/c05.py adapters: op vocabulary (uid-carrying gates/operations), canonicalisation of results, Gallina literal printing',
@@ -1139,6 +1220,7 @@ def run(ctx):
     vocab = Vocab(cirq)
     witness_stream(ctx, cirq, vocab)
     moment_stream(ctx, cirq, vocab, 150 if ctx.tier == 'quick' else 400)
+    grid_stream(ctx, cirq, vocab)
     n = 500 if ctx.tier == 'quick' else 6000
     history_stream(ctx, cirq, vocab, n)
 
@@ -1250,6 +1332,26 @@ def moment_stream(ctx, cirq, vocab, n):
         ctx.mark_broken('correspondence:moment', f'model and implementation differ on the Moment chain {calls}: implementation gave {trace}')
 
 
+def account(ctx, stream, w, calls, trace, problems, cirq, vocab):
+    """Counts one executed history and reports what the spec-level oracles found on it."""
+    ctx.count(stream, history_doc(w, calls), nontrivial(w, calls, trace),
+              sample=dict(calls=calls[:4], final_moments=trace[-1][1]))
+    for c, (r, _) in zip(calls, trace):
+        if c.get('syn'):
+            continue
+        ctx.streams['call:' + c['c']] += 1
+        if r[0] == 'err':
+            ctx.streams['raised:' + r[1]] += 1
+        if 's' in c and isinstance(c['s'], str):
+            ctx.streams['strategy:' + c['s']] += 1
+    seen = set()
+    for (step, kind, what) in problems:
+        if kind in seen:
+            continue
+        seen.add(kind)
+        report_problem(ctx, cirq, vocab, w, calls, step, kind, what)
+
+
 def history_stream(ctx, cirq, vocab, n, shard=300):
     hists = []
     for i in range(n):
@@ -1258,22 +1360,160 @@ def history_stream(ctx, cirq, vocab, n, shard=300):
         ncalls = ctx.rng.choice([1, 2, 3, 5, 8, 12, 20, 30, 40])
         calls, trace, problems = run_history(w, None, ctx.rng, gen, ncalls)
         hists.append((w, calls, trace))
-        ctx.count('history', history_doc(w, calls), nontrivial(w, calls, trace),
-                  sample=dict(calls=calls[:4], final_moments=trace[-1][1]))
-        for c, (r, _) in zip(calls, trace):
-            if c.get('syn'):
-                continue
-            ctx.streams['call:' + c['c']] += 1
-            if r[0] == 'err':
-                ctx.streams['raised:' + r[1]] += 1
-            if 's' in c and isinstance(c['s'], str):
-                ctx.streams['strategy:' + c['s']] += 1
-        seen = set()
-        for (step, kind, what) in problems:
-            if kind in seen:
-                continue
-            seen.add(kind)
-            report_problem(ctx, cirq, vocab, w, calls, step, kind, what)
+        account(ctx, 'history', w, calls, trace, problems, cirq, vocab)
+    compare_with_model(ctx, cirq, vocab, hists, 'hist', shard)
+
+
+# ---- edits on a circuit whose append-placement cache is alive, then appends everywhere -------------------------
+# A circuit built only by Circuit(tree) / EARLIEST appends carries the placement cache.  The grid applies one edit of
+# every kind to it, aimed at the operation that is the last one on some qubit / measurement key / control key (what an
+# append onto that qubit or key is placed against), and then appends one operation onto every qubit and every key (and a
+# whole tree at once): each append is judged by the placement oracle, the rebuilt-circuit oracle and the model.
+U1 = lambda q: dict(q=list(q), mk=[], ck=[], pn=[], kind='u')
+FIXED_BASE = {
+    1: U1([0]), 2: U1([0, 1]), 3: U1([2]), 4: dict(q=[3], mk=[0], ck=[], pn=[], kind='meas'),
+    5: dict(q=[4], mk=[], ck=[0], pn=[], kind='cc'), 6: U1([0]), 7: U1([0]),
+    8: dict(q=[1], mk=[1], ck=[], pn=[], kind='meas'), 9: U1([3]), 10: dict(q=[2], mk=[2], ck=[], pn=[], kind='kop'),
+    11: dict(q=[2], mk=[], ck=[1], pn=[], kind='cc'),
+}       # EARLIEST gives [[1, 3, 4], [2, 5, 9, 10], [6, 8], [7, 11]]
+
+
+def build_calls(items, form, rng):
+    """Three ways of building the same circuit that all keep the placement cache."""
+    if form == 0:
+        return [dict(c='new', items=items, s='EARLIEST')]
+    if form == 1:
+        return [dict(c='empty')] + [dict(c='append', items=[it], s='EARLIEST', iadd=(j % 3 == 2)) for j, it in enumerate(items)]
+    h = max(1, len(items) // 2)
+    return [dict(c='new', items=items[:h], s='EARLIEST'), dict(c='append', items=items[h:], s='EARLIEST', iadd=False)]
+
+
+def grid_histories(cirq, vocab, rng, tier):
+    """Yields (ops, calls) of the histories build ; edit ; appends."""
+    bases = [(dict(FIXED_BASE), list(range(1, 12)), None)]
+    for _ in range(1 if tier == 'quick' else 6):
+        w0 = World(cirq, vocab)
+        g0 = Gen(rng, w0)
+        its = g0.items(6, 10)
+        bases.append((dict(w0.ops), its, None))
+    count = 0
+    for bi, (ops, items, _) in enumerate(bases):
+        forms = [0, 1, 2] if (tier != 'quick' and bi == 0) else [None]
+        for form0 in forms:
+            # the state after the build (the same for every form)
+            w = World(cirq, vocab, ops)
+            for c in build_calls(items, 0, rng):
+                exec_call(w, c)
+            moms = w.moments_uids()
+            n = len(moms)
+            g = Gen(rng, w)
+            g.next_uid = max(ops) + 1
+            last = {}
+            for i, m in enumerate(moms):
+                for u in m:
+                    sp = w.spec(u)
+                    for key in [('q', x) for x in sp['q']] + [('m', x) for x in sp['mk']] + [('c', x) for x in sp['ck']]:
+                        last[key] = (i, u)
+            targets = sorted(set(last.values()))
+            others = [(i, u) for i, m in enumerate(moms) for u in m if (i, u) not in targets]
+            if others:
+                targets.append(rng.choice(others))
+            edits = []
+            for (i, u) in targets:
+                qs = w.spec(u)['q']
+                spare = [q for q in range(NQ) if q not in qs]
+                if qs:
+                    edits.append(dict(c='clear', q=[qs[0]], idx=[i]))
+                    edits.append(dict(c='clear', q=qs + rng.sample(spare, min(1, len(spare))), idx=list(range(-1, n + 1))))
+                    edits.append(dict(c='clear', q=list(qs), idx=[i, rng.randrange(n)]))
+                edits.append(dict(c='bremove', rs=[[i, u]]))
+                edits.append(dict(c='bremove', rs=[[i - n, u]]))
+                rep = g.next_uid
+                g.next_uid += 1
+                w.add_op(rep, U1(qs))
+                edits.append(dict(c='breplace', rs=[[i, u, rep]]))
+                edits.append(dict(c='delitem', i=i))
+                edits.append(dict(c='delitem', i=i - n))
+                edits.append(dict(c='setitem', i=i, m=[x for x in moms[i] if x != u]))
+                edits.append(dict(c='delslice', a=i, b=None))
+                edits.append(dict(c='setslice', a=i, b=i + 1, ms=[]))
+                edits.append(dict(c='setslice', a=i, b=i + 1, ms=[[x for x in moms[i] if x != u], []]))
+                ins = g.next_uid
+                g.next_uid += 1
+                w.add_op(ins, U1(qs))
+                edits.append(dict(c='insert', i=i, items=[ins], s=rng.choice(STRATS)))
+            # edits that ADD an operation behind the last one on a qubit / key (into an existing moment where it fits)
+            adds = [U1([q]) for q in range(NQ)] + [dict(q=[], mk=[k], ck=[], pn=[], kind='kop') for k in range(NK)] \
+                + [dict(q=[NQ + k], mk=[], ck=[k], pn=[], kind='cc') for k in range(NK)]
+            for sp in adds:
+                a = g.next_uid
+                g.next_uid += 1
+                w.add_op(a, sp)
+                behind = max([i for i, m in enumerate(moms) if any(conflict(w, x, a) for x in m)], default=-1)
+                fits = [j for j in range(behind + 1, n) if not set(sp['q']) & {q for x in moms[j] for q in w.spec(x)['q']}]
+                if not fits:
+                    continue
+                j = rng.choice(fits)
+                edits.append(dict(c='binto', rs=[[j, [a]]]))
+                edits.append(dict(c='range', items=[a], s=j, e=j + 1))
+                edits.append(dict(c='frontier', items=[a], start=j, f=None))
+                edits.append(dict(c='binsert', ins=[[j, [a]]]))
+                edits.append(dict(c='setitem', i=j, m=moms[j] + [a]))
+            for e in edits:
+                e['aimed'] = True
+            # and edits of every kind drawn by the generator of the random stream
+            tries = 0
+            want = 12 if tier == 'quick' else 40
+            while sum(1 for e in edits if not e.get('aimed')) < want and tries < 400:
+                tries += 1
+                e = g.call()
+                if e['c'] in QUERIES or e['c'] in ('new', 'empty', 'append'):
+                    continue
+                edits.append(e)
+            table = dict(w.ops0)
+            for e in edits:
+                aimed = e.pop('aimed', False)
+                form = form0 if form0 is not None else count % 3
+                count += 1
+                ops2 = dict(table)
+                nxt = max(ops2) + 1
+                singles = []
+                order = list(range(NQ))
+                rng.shuffle(order)
+                for q in order:
+                    ops2[nxt] = U1([q])
+                    singles.append(nxt)
+                    nxt += 1
+                for k in range(NK):         # conflict with nothing but the measurements of key k
+                    ops2[nxt] = dict(q=[NQ + k], mk=[], ck=[k], pn=[], kind='cc')
+                    singles.append(nxt)
+                    nxt += 1
+                for k in range(NK):         # conflict with nothing but measurements and controls of key k
+                    ops2[nxt] = dict(q=[], mk=[k], ck=[], pn=[], kind='kop')
+                    singles.append(nxt)
+                    nxt += 1
+                if aimed and count % 4 == 0 or (not aimed and count % 2 == 0):      # the whole tree in one append
+                    cut = rng.randrange(len(singles))
+                    ops2[nxt] = U1([order[0]])
+                    tree = singles[:cut] + [{'m': [nxt]}] + singles[cut:]
+                    probes = [dict(c='append', items=tree, s='EARLIEST', iadd=rng.random() < 0.3)]
+                else:
+                    probes = [dict(c='append', items=[u], s='EARLIEST', iadd=(j % 4 == 3)) for j, u in enumerate(singles)]
+                yield ops2, build_calls(items, form, rng) + [e] + probes
+
+
+def grid_stream(ctx, cirq, vocab):
+    import random
+    hists = []
+    for ops, calls in grid_histories(cirq, vocab, ctx.rng, ctx.tier):
+        w = World(cirq, vocab, ops)
+        calls, trace, problems = run_history(w, calls, random.Random(0))
+        hists.append((w, calls, trace))
+        account(ctx, 'edit-then-append', w, calls, trace, problems, cirq, vocab)
+    compare_with_model(ctx, cirq, vocab, hists, 'grid', 300)
+
+
+def compare_with_model(ctx, cirq, vocab, hists, name, shard):
     for s in range(0, len(hists), shard):
         part = hists[s:s + shard]
         text = ('From Coq Require Import ZArith List Bool.\nFrom VF Require Import Circ.Moments Circ.Placement Circ.Insert '
@@ -1286,13 +1526,13 @@ def history_stream(ctx, cirq, vocab, n, shard=300):
             rows.append(f'(({cs}),\n  ({ts}))')
         text += ';\n'.join(rows) + '].\n'
         text += 'Eval vm_compute in bad_histories hists.\n'
-        vals = coq.parse_evals(coq.coq_eval(f'c05_hist_{ctx.seed}_{s}', text))
+        vals = coq.parse_evals(coq.coq_eval(f'c05_{name}_{ctx.seed}_{s}', text))
         assert len(vals) == 1, vals
         nums = coq.parse_nat_list(vals[0])
         for hi, si in zip(nums[0::2], nums[1::2]):
             w, calls, trace = part[hi]
             ctx.mark_broken('correspondence:history',
-                            f'model and implementation differ at step {si} ({calls[si]}) of history {s + hi}: implementation gave {trace[si]}; '
+                            f'model and implementation differ at step {si} ({calls[si]}) of {name} history {s + hi}: implementation gave {trace[si]}; '
                             f'history: {json.dumps(history_doc(w, calls[:si + 1]))[:30000]}')
             spec_search(ctx, cirq, vocab, w, calls, si)
 
